@@ -44,6 +44,8 @@ def jobs(tier):
         kc('N=%d,r' % N, N=N, mode='r')
         if N <= 4:
             kc('N=%d,estimator,k=2' % N, N=N, mode='n', k=2, entry='estimator')
+            kc('N=%d,estimator,k=N+2(more clusters than frames)' % N, N=N, mode='n', k=N + 2, entry='estimator')
+            kc('N=%d,n-None,k=N+1' % N, N=N, mode='n-None', k=N + 1)
             for w in range(1, min(2, N) + 1):
                 kc('N=%d,r,warm=%d' % (N, w), N=N, mode='r', warm=w)
                 kc('N=%d,n,k=%d,warm=%d' % (N, w + 1, w), N=N, mode='n', k=w + 1, warm=w)
